@@ -27,9 +27,12 @@ type Program struct {
 
 // one execution context (one Check / one run): event log and context identities
 type Run struct {
-	Events []string // Coq uev terms
-	ctxs   []context.Context
-	draws  []int // per nesting level of Custom bodies: Draw calls made on that T so far
+	Events []string          // Coq uev terms
+	ctxs   []context.Context // every context object seen in this run
+	cur    []context.Context // per nesting level of Custom bodies: the context last returned as live
+	draws  []int             // per nesting level of Custom bodies: Draw calls made on that T so far
+
+	CtxViolations []string
 }
 
 func NewRun() *Run { return &Run{draws: []int{0}} }
@@ -41,6 +44,9 @@ func (r *Run) ev(s string) {
 		r.draws = append(r.draws, 0)
 	case strings.HasPrefix(s, "(UCustomEnd"):
 		r.draws = r.draws[:len(r.draws)-1]
+		if len(r.cur) > len(r.draws) {
+			r.cur = r.cur[:len(r.draws)]
+		}
 	case strings.HasPrefix(s, "(UDraw"):
 		r.draws[len(r.draws)-1]++
 	}
@@ -446,20 +452,24 @@ func (p *Program) exec(t *rapid.T, s *Stmt, env []Val, r *Run) Val {
 		ctx := t.Context()
 		live := ctx.Err() == nil
 		if live {
-			id := 0
-			for i, c := range r.ctxs {
-				if c == ctx {
-					id = i + 1
+			// identity oracle: a live context must be the current one of this T, or a new one
+			lvl := len(r.draws) - 1
+			for len(r.cur) <= lvl {
+				r.cur = append(r.cur, nil)
+			}
+			if r.cur[lvl] != ctx {
+				for _, c := range r.ctxs {
+					if c == ctx {
+						r.CtxViolations = append(r.CtxViolations, "Context() returned a context of an earlier invocation")
+					}
 				}
-			}
-			if id == 0 {
 				r.ctxs = append(r.ctxs, ctx)
-				id = len(r.ctxs)
-				r.ev(fmt.Sprintf("(UCtxNew %d)", id))
+				r.cur[lvl] = ctx
+				r.ev("UCtxNew")
 			}
-			r.ev(fmt.Sprintf("(UCtxSeen %d true)", id))
+			r.ev("(UCtxSeen true)")
 		} else {
-			r.ev("(UCtxSeen 0 false)")
+			r.ev("(UCtxSeen false)")
 		}
 		return p.exec(t, s.Next, append(env[:len(env):len(env)], live), r)
 	case "failed":
